@@ -315,4 +315,6 @@ def run(chk, ctx):
     r4(chk, ctx)
     r5(chk, ctx, handlers)
     r6(chk, ctx, handlers)
+    from . import c12
+    c12.r2(chk, ctx, ctx.mod('state_engine_paths'))          # Variable lookup: a missing Variable is missing whatever the (falsy) input
     chk.assume("operator.eq/lt/gt/le/ge and fnmatch behave as documented")
